@@ -39,14 +39,14 @@ func spec_render(s Snippet, ctx context.Context) string {
 //@   note interface method: assumed a deterministic observer without side effects
 
 //@ func Args.Args
-//@   props C09
+//@   props C09 C01
 //@   lit 1 ensures !stopped ==> len(out) == len(args) && len(out2) == len(out) && (forall j int :: 0 <= j && j < len(out) ==> has(args, out[j]) && out2[j] == args[out[j]]) && (forall k string :: has(args, k) ==> elem(k, out))
 //@   loop 1 invariant !stopped && eq(out, ks1[:it1]) && len(out2) == len(out)
 //@   loop 1 invariant forall j int :: 0 <= j && j < len(out2) ==> out2[j] == args[out[j]]
 //@   note the map form of template arguments hands EVERY entry to T() exactly once with its value - entries bound to nil included (a nil binding renders nothing; only an UNBOUND placeholder may panic)
 
 //@ func arg.Args
-//@   props C09
+//@   props C09 C01
 //@   requires a != nil
 //@   lit 1 ensures !stopped ==> len(out) == 1 && len(out2) == 1 && out[0] == a.name && out2[0] == a.snippet
 
@@ -68,13 +68,13 @@ func Spec_templateFormat(s Snippet) string {
 }
 
 //@ func Sprintf
-//@   props C09
+//@   props C09 C01
 //@   assigns nothing
 //@   ensures spec_printerOf(result) != nil && fresh(spec_printerOf(result)) && spec_printerOf(result).fmt == fmt && eq(spec_printerOf(result).args, args)
 //@   note the constructor keeps the format and the argument list as given, for EVERY argument count: a format without arguments is still a format (`%%` renders as one percent sign, a verb without argument panics) - it is never handed out as literal text
 
 //@ func T
-//@   props C09
+//@   props C09 C01
 //@   ensures spec_templateOf(result) != nil && fresh(spec_templateOf(result)) && spec_templateOf(result).format == fmt && spec_templateOf(result).args != nil
 //@   loop 1 invariant t != nil && t.format == fmt && t.args != nil && fresh(t)
 //@   loop 2 invariant t != nil && t.format == fmt && t.args != nil && fresh(t)
@@ -174,7 +174,7 @@ func spec_renderAll(cs []Snippet, ctx context.Context, n int) string {
 //@   loop 2 invariant !stopped && outText == spec_renderAll(ys1, ctx, it1) + spec_concatN(ys2, it2)
 
 //@ func fn.Frag
-//@   props C09 C04
+//@   props C09 C04 C01
 //@   lit 1 ordered
 //@   requires f != nil
 //@   lit 1 nopanic
@@ -276,7 +276,7 @@ func spec_src(t *template) []rune { return []rune(strings.TrimLeft(t.format, "\n
 // ---- Sprintf(format, args...) (C09) ----
 
 //@ func pkgExposer.Frag
-//@   props C05 C09 C04
+//@   props C05 C09 C04 C01
 //@   lit 1 ordered
 //@   requires i != nil
 //@   assigns *
@@ -284,7 +284,7 @@ func spec_src(t *template) []rune { return []rune(strings.TrimLeft(t.format, "\n
 //@   note frame, proved on the returned iterator literal too: rendering a PkgExpose snippet stores nothing into ANY snippet value - in particular it keeps no memo of the name it resolved (a snippet value rendered into two generated files must consult each file's own import table: C05)
 
 //@ func ident.Frag
-//@   props C03 C05 C09 C04 C15
+//@   props C03 C05 C09 C04 C15 C01
 //@   requires i != nil
 //@   assigns *
 //@   preserves pkg/gengo/snippet. pkg/gengo/internal.
@@ -393,7 +393,7 @@ func spec_comment(v string) string {
 }
 
 //@ func Comment
-//@   props C09 C04
+//@   props C09 C04 C01
 //@   lit 2 ordered
 //@   lit 2 yields spec_comment(v)
 //@   loop 1 invariant !stopped && outText == spec_commentLines(xs1, it1)
@@ -417,7 +417,7 @@ func spec_directive(directive string, args []string) string {
 }
 
 //@ func GoDirective
-//@   props C09 C04
+//@   props C09 C04 C01
 //@   lit 2 ordered
 //@   lit 2 yields spec_directive(directive, args)
 //@   loop 1 invariant !stopped && outText == "//go:" + directive + spec_directiveArgs(args, it1)
